@@ -57,13 +57,54 @@ func isMaxReqLen(info *types.Info, e ast.Expr) bool {
 
 func ruleS1(r *Run) {
 	p := r.P
+	// entries: every function of a transport package that hands received bytes to the service
+	// (calls Service.Handle / Handler.run / Handler.task) and is not itself one of those dispatch
+	// targets. On the reference tree these are the six functions of s1Entries; a receive loop whose
+	// per-frame part was split off into a helper is found under the helper's name.
+	type s1Entry struct {
+		pkg string
+		fd  *ast.FuncDecl
+	}
+	var entries []s1Entry
+	seenPkg := map[string]bool{}
 	for _, en := range s1Entries {
-		key := "limit before dispatch " + en.pkg + "." + en.fn
-		fd, pkg := p.DeclOf(en.pkg, en.fn)
-		if fd == nil {
-			r.Undec(key, 0, "entry not found")
+		if seenPkg[en.pkg] {
 			continue
 		}
+		seenPkg[en.pkg] = true
+		pk := p.Pkg(en.pkg)
+		if pk == nil {
+			r.Undec("limit before dispatch "+en.pkg, 0, "package not found")
+			continue
+		}
+		for _, file := range pk.Syntax {
+			for _, d := range file.Decls {
+				fd, ok := d.(*ast.FuncDecl)
+				if !ok || fd.Body == nil || fd.Name.Name == "run" || fd.Name.Name == "task" {
+					continue
+				}
+				has := false
+				ast.Inspect(fd.Body, func(n ast.Node) bool {
+					if call, ok := n.(*ast.CallExpr); ok {
+						if f := Callee(pk.TypesInfo, call); f != nil && p.InRepo(f) {
+							name := p.FuncName(f)
+							if name == "rpc/core.Service.Handle" || strings.HasSuffix(name, ".Handler.run") || strings.HasSuffix(name, ".Handler.task") {
+								has = true
+							}
+						}
+					}
+					return true
+				})
+				if has {
+					entries = append(entries, s1Entry{en.pkg, fd})
+				}
+			}
+		}
+	}
+	for _, en := range entries {
+		fd := en.fd
+		pkg := p.Pkg(en.pkg)
+		key := "limit before dispatch " + p.DeclName(fd)
 		info := pkg.TypesInfo
 		defs := localDefs(info, fd.Body)
 		// dispatch calls and their bytes argument
